@@ -18,13 +18,20 @@ C. End to end on real files (the oracle): seeded option sets (windows incl. 0 bo
    refusals must be refusals on both sides with the same exception class and must leave no output when the setting is one
    the C19 model refuses; the header of an accepted file carries the rate / blockshape the C19 model resolves.
    `sgz2sgy` output must be byte-identical to SgzConverter(input).convert_to_segy(output).
+
+ORACLE-ONLY MODE (--no-model, or automatically when the first model evaluation raises CoqEvalError, e.g. because a change to
+cli.py made genx_cli fail closed so that Gen/Cli.v / SZ.Model.Cli no longer exist): every model evaluation and every 'corr'
+comparison is skipped; the direct oracles still run: B with the hand-written reading of the command line below
+(expected_outcome: each option value reaches its own keyword, defaults 4 / None / False / None x4, refusals call nothing),
+C with the CLI's file byte-identical to the hand-spelled API call, refusals on both sides and no output left, sgz2sgy
+byte-identical to the API export.  The result JSON is written in every case.
 """
 import os, sys, re
 sys.path.insert(0, os.path.dirname(os.path.abspath(__file__)))
 from common import *
 a = parse_args()
 from hz import *
-from coqeval import coq_eval, parse_value, zlit
+from coqeval import coq_eval, parse_value, zlit, CoqEvalError
 import click
 from click.testing import CliRunner
 import seismic_zfp.cli as szcli
@@ -57,6 +64,22 @@ Definition enc_oz (o : option Z) : Z * Z := match o with Some z => (1, z) | None
 Definition enc_ob (o : option bool) : Z := match o with Some true => 1 | Some false => 0 | None => 2 end.
 '''
 CMDS = {'sgy2sgz': 'cmd_sgy2sgz', 'zgy2sgz': 'cmd_zgy2sgz', 'sgz2sgy': 'cmd_sgz2sgy'}
+MODEL = [not a.no_model]
+if a.no_model:
+    R.notes.append('oracle-only mode (--no-model): model evaluations and corr comparisons skipped')
+
+
+def model_eval(terms):
+    """values of the terms in the Coq model, or None in oracle-only mode (entered for good when an evaluation fails)"""
+    if not MODEL[0] or not terms:
+        return None if not MODEL[0] else []
+    try:
+        return coq_eval(REQ, terms, preamble=PRE)
+    except CoqEvalError as e:
+        MODEL[0] = False
+        R.notes.append('oracle-only mode: the Coq model could not be evaluated (Gen/Cli.v or SZ.Model.Cli missing / not compiling?); '
+                       'model evaluations and corr comparisons skipped: ' + str(e)[-400:].replace('\n', ' '))
+        return None
 
 
 def cq(s):
@@ -155,12 +178,27 @@ BOOL_OUTSIDE = [' yes', 'true ', ' ']                         # click strips whi
 
 
 def part_a():
+    import inspect
+    # oracle (no model): what click passes by keyword is exactly what each callback takes
+    for c in sz_cli.commands:
+        cmdobj = sz_cli.commands[c]
+        sig = list(inspect.signature(cmdobj.callback).parameters)
+        exposed = [p.name for p in cmdobj.params if p.expose_value]
+        R.case(('A', 'signature', c))
+        R.count('A/callback signatures')
+        if sorted(sig) != sorted(exposed) or len(set(exposed)) != len(exposed):
+            R.violation('oracle', {'command': c}, f'callback parameters {sig} but click passes {exposed}')
+    if sorted(sz_cli.commands) != sorted(CMDS):
+        R.violation('oracle', {'commands': sorted(sz_cli.commands)}, f'the commands of the group are not {sorted(CMDS)}')
     terms = [f'map enc_decl (cmd_params {CMDS[c]})' for c in CMDS] + ['cli_commands', 'forallb wired all_commands']
     ints = [int(x) for x in INT_OK] + [rng.randrange(-10 ** 12, 10 ** 12) for _ in range(20)]
     terms += [f'enc_oz (parse_int {cq(s)})' for s in INT_OK + INT_BAD + INT_OUTSIDE]
     terms += [f'show_int {zlit(z)}' for z in ints]
     terms += [f'enc_ob (parse_bool {cq(s)})' for s in BOOL_TOKENS + BOOL_BAD + BOOL_OUTSIDE]
-    vals = [parse_value(v) for v in coq_eval(REQ, terms, preamble=PRE)]
+    raw = model_eval(terms)
+    if raw is None:
+        return
+    vals = [parse_value(v) for v in raw]
     k = 0
     real_names = list(sz_cli.commands)
     for c in CMDS:
@@ -174,13 +212,6 @@ def part_a():
         R.count('A/parameter-lists')
         if real is None or len(real) != len(model) or any(tuple(r) != m for r, m in zip(real, model)):
             R.violation('corr', {'command': c}, f'click parameters {real} but the model derives {model}')
-        fn = sz_cli.commands[c].callback if c in sz_cli.commands else None
-        if fn is not None:
-            import inspect
-            sig = list(inspect.signature(fn).parameters)
-            exposed = [m[2] for m in model if m[0] != 2]
-            if sorted(sig) != sorted(exposed):
-                R.violation('oracle', {'command': c}, f'callback parameters {sig} but click passes {exposed}')
     cmds = [unq(x) for x in vals[k]]
     k += 1
     if cmds != real_names:
@@ -333,13 +364,15 @@ def part_b(d):
                               '--blockshape', '-1', '16', '512', '--reduce-iops', 'TRUE'], [inp, 'o.sgz'],
                   {'--min-il': ['0'], '--max-il': ['0'], '--min-xl': ['0'], '--max-xl': ['0'], '--bits-per-voxel': ['-2'],
                    '--blockshape': ['-1', '16', '512'], '--reduce-iops': ['TRUE']}))
-    terms = [run_term(cmd, [inp], pos, last) for cmd, argv, pos, last in cases]
-    vals = coq_eval(REQ, terms, preamble=PRE)
+    terms = [run_term(cmd, [inp], pos, last) for cmd, argv, pos, last in cases] if MODEL[0] else []
+    vals = model_eval(terms)
+    if vals is None:
+        vals = [None] * len(cases)
     saved = (szcli.SegyConverter, szcli.ZgyConverter, szcli.SgzConverter)
     szcli.SegyConverter, szcli.ZgyConverter, szcli.SgzConverter = (recorder(x) for x in ('SegyConverter', 'ZgyConverter', 'SgzConverter'))
     try:
         for (cmd, argv, pos, last), v in zip(cases, vals):
-            model = dec_result(parse_value(v))
+            model = dec_result(parse_value(v)) if v is not None else None
             del calls[:]
             res = quiet(CliRunner().invoke, sz_cli, [cmd] + argv)
             got = list(calls)
@@ -355,14 +388,15 @@ def part_b(d):
             R.case(('B',) + shape, nontrivial=bool(last) or real == 'usage',
                    sample={'argv': [cmd] + [os.path.basename(x) for x in argv], 'calls': str(real)[:300]})
             R.count(f'B/{cmd}/' + (real if isinstance(real, str) and real in ('version', 'usage') else 'calls' if isinstance(real, list) else 'other'))
-            ok = same_calls(model, real) if isinstance(real, list) else model == real
+            if v is not None:
+                ok = same_calls(model, real) if isinstance(real, list) else model == real
+                if not ok:
+                    R.violation('corr', {'argv': [cmd] + argv}, f'click made {real}, the model says {model}')
+            # oracle, without the model: what the documentation of the CLI says the command line means
+            want = expected_outcome(cmd, pos, last, inp)
+            ok = same_calls(want, real) if isinstance(want, list) else want == real
             if not ok:
-                R.violation('corr', {'argv': [cmd] + argv}, f'click made {real}, the model says {model}')
-            # oracle, without the model: what the property texts say the command line means
-            if isinstance(real, list):
-                want = expected_calls(cmd, pos, last)
-                if want is not None and not same_calls(want, real):
-                    R.violation('oracle', {'argv': [cmd] + argv}, f'the CLI made {real}; the API call this command line stands for is {want}')
+                R.violation('oracle', {'argv': [cmd] + argv}, f'the CLI made {real}; this command line stands for {want}')
     finally:
         szcli.SegyConverter, szcli.ZgyConverter, szcli.SgzConverter = saved
 
@@ -374,6 +408,24 @@ def py_int(s):
 def py_bool(s):
     return {'1': True, 'yes': True, 'true': True, 'on': True, 't': True, 'y': True,
             '0': False, 'no': False, 'false': False, 'off': False, 'f': False, 'n': False, '': False}.get(s.lower())
+
+
+def expected_outcome(cmd, pos, last, present):
+    """the hand-written reading of a command line of part B (tokens as generated there): 'version' if --version occurs,
+    'usage' (nothing called) for a missing / surplus / non-existing positional token or a token that is not an integer /
+    boolean / triple, else the two API calls with every option value at its own keyword and the documented defaults"""
+    if '--version' in last:
+        return 'version'
+    if len(pos) != 2 or pos[0] != present:
+        return 'usage'
+    for f, toks in last.items():
+        if f == '--reduce-iops':
+            if len(toks) != 1 or py_bool(toks[0]) is None:
+                return 'usage'
+        elif len(toks) != (3 if f == '--blockshape' else 1) or any(py_int(t) is None for t in toks):
+            return 'usage'
+    want = expected_calls(cmd, pos, last)
+    return want if want is not None else 'unreadable'
 
 
 def expected_calls(cmd, pos, last):
@@ -520,17 +572,19 @@ def part_c(d):
     for c in cases:
         pos, last = last_of(c['argv'])
         c['pos'], c['last'] = pos, last
+        if not MODEL[0]:
+            continue
         t = run_term('sgy2sgz', [c['sgy']], pos, last)
         terms.append(t)
         d2 = 'true' if c['kind'] == '2d' else 'false'
         terms.append(f'match the_calls (cli_run (click_std (fun _ => true)) cmd_sgy2sgz {{| iv_args := [{cq(pos[0])}; {cq(pos[1])}]; '
                      f'iv_opt := mkopt [' + '; '.join(f'({cq(f)}, [' + '; '.join(cq(x) for x in toks) + '])' for f, toks in last.items()) +
                      f'] |}}) with Some (_, run) => match cfg_of_call {d2} run with Some c => Some (resolve c) | None => None end | None => None end')
-    vals = coq_eval(REQ, terms, preamble=PRE)
+    vals = model_eval(terms)
     made_sgz = []
     for i, c in enumerate(cases):
-        model = dec_result(parse_value(vals[2 * i]))
-        res_txt = vals[2 * i + 1]
+        model = dec_result(parse_value(vals[2 * i])) if vals is not None else None
+        res_txt = vals[2 * i + 1] if vals is not None else None
         inp = {'argv': ['sgy2sgz'] + [os.path.basename(x) if os.sep in x else x for x in c['argv']], 'kind': c['kind']}
         # ---- the CLI
         r = quiet(CliRunner().invoke, sz_cli, ['sgy2sgz'] + c['argv'])
@@ -565,8 +619,13 @@ def part_c(d):
                                        f'({len(cli_bytes or b"")} vs {len(api_bytes or b"")} bytes)')
         if c['expect_refusal'] != (cli_exc is not None):
             R.violation('oracle', inp, f'setting expected to be {"refused" if c["expect_refusal"] else "accepted"}: CLI {cli_exc or "wrote a file"}')
+        if cli_exc is not None and (os.path.exists(c['out']) or os.path.exists(api_out)) and \
+                (c['expect_refusal'] or cli_exc == 'Usage'):
+            R.violation('oracle', inp, 'a refused setting left an output file behind')
         # ---- corr: the calls the model names
-        if not isinstance(model, list):
+        if vals is None:
+            pass
+        elif not isinstance(model, list):
             R.violation('corr', inp, f'the model says {model}; the CLI: {cli_exc or "file written"}')
         else:
             if not same_calls(model, want):
@@ -596,7 +655,7 @@ def part_c(d):
                 R.count('C/refusal class = the C19 model, no output left')
                 if cli_exc != cls:
                     R.violation('corr', inp, f'the C19 model refuses with {cls}; the CLI: {cli_exc or "file written"}')
-                if os.path.exists(c['out']) or os.path.exists(api_out):
+                if (os.path.exists(c['out']) or os.path.exists(api_out)) and not c['expect_refusal']:
                     R.violation('oracle', inp, 'a refused setting left an output file behind')
             else:
                 R.violation('corr', inp, f'no configuration from the model: {res_txt}')
@@ -608,10 +667,12 @@ def part_c(d):
     rng.shuffle(made_sgz)
     n3x, n2x = (9, 4) if THOROUGH else (4, 2)
     picks = [x for x in made_sgz if x[0] == '3d'][:n3x] + [x for x in made_sgz if x[0] == '2d'][:n2x]
-    terms = [run_term('sgz2sgy', [sgz], [sgz, sgz[:-4] + '.cli.sgy'], {}) for _, sgz in picks]
-    vals = coq_eval(REQ, terms, preamble=PRE) if picks else []
+    terms = [run_term('sgz2sgy', [sgz], [sgz, sgz[:-4] + '.cli.sgy'], {}) for _, sgz in picks] if MODEL[0] else []
+    vals = model_eval(terms)
+    if vals is None:
+        vals = [None] * len(picks)
     for (kind, sgz), v in zip(picks, vals):
-        model = dec_result(parse_value(v))
+        model = dec_result(parse_value(v)) if v is not None else None
         o_cli, o_api = sgz[:-4] + '.cli.sgy', sgz[:-4] + '.api.sgy'
         inp = {'argv': ['sgz2sgy', os.path.basename(sgz), os.path.basename(o_cli)], 'kind': kind}
         r = quiet(CliRunner().invoke, sz_cli, ['sgz2sgy', sgz, o_cli])
@@ -622,7 +683,9 @@ def part_c(d):
         if r.exit_code != 0 or read_bytes(o_cli) != read_bytes(o_api) or not read_bytes(o_cli):
             R.violation('oracle', inp, f'sgz2sgy: exit {r.exit_code} {r.exception!r}; output differs from SgzConverter(input).convert_to_segy(output)')
         want = [('SgzConverter', [sgz], {}), ('convert_to_segy', [o_cli], {})]
-        if not same_calls(model, want):
+        if v is None:
+            pass
+        elif not same_calls(model, want):
             R.violation('corr', inp, f'the model names {model}, expected {want}')
         else:
             o_m = sgz[:-4] + '.model.sgy'
@@ -635,15 +698,23 @@ def part_c(d):
 
 
 d = scratch_dir()
+crash = None
 try:
     part_a()
     part_b(d)
     part_c(d)
+except BaseException as e:       # the result is written in every case; the crash is then re-raised
+    import traceback
+    crash = e
+    R.notes.append('HARNESS CRASHED (results up to this point are reported): ' + traceback.format_exc()[-1500:])
 finally:
     shutil.rmtree(d, ignore_errors=True)
 R.notes.append('tokens outside -?[0-9]+ that Python int() accepts (leading +, white space, digit separators) and white space around '
                'booleans are outside the click model: the model refuses them, click accepts; checked only that the model is silent')
 R.notes.append('zgy2sgz is exercised against recording converters only (ZGY cannot be read in this sandbox)')
+R.notes.append('model evaluated: ' + ('yes' if MODEL[0] else 'NO (oracle-only mode)'))
 R.write(a.out)
 for v in R.violations:
     print(('KNOWN-FINDING ' if v.get('finding_key') else 'VIOLATION ') + json.dumps(v, default=str)[:1200])
+if crash is not None:
+    raise crash
